@@ -109,6 +109,20 @@ def _is_lazy_fill(q: str, ef: Effect) -> bool:
     """store to the attribute a getter is named after, guarded by
     `not hasattr(self, that attribute)`"""
     name = q.rsplit(".", 1)[1]
+    if ef.kind == "setitem" and ef.target.op == "attr" and \
+            ef.target.args[1].startswith("_") and \
+            ef.target.args[1] not in LAZY_GETTERS.values() and \
+            ef.event.kind == "setitem" and tm.is_const(
+                ef.event.data.get("index")):
+        # a memo kept in a private dictionary of the object, filled when
+        # the key is absent (C08.7 decides that it is emptied in time)
+        key = ef.event.data["index"]
+        return tm.fold(ef.event.live, lambda a: True if (
+            a.op == "cmp" and a.args[0] == "In" and a.args[1] is key and
+            a.args[2] is ef.target) else (False if (
+                a.op == "cmp" and a.args[0] == "NotIn" and
+                a.args[1] is key and a.args[2] is ef.target) else None)) \
+            is False
     attr = LAZY_GETTERS.get(name)
     if attr is None and ef.kind.startswith("setattr:_") and \
             ef.kind[8:] not in LAZY_GETTERS.values():
